@@ -211,7 +211,7 @@ func runC07Once(p *C07Plan, long bool) (*stats.Case, error) {
 	} else if !p.BadFirst {
 		// the bad node announces its tip so that the service asks it even if it is not the sync peer
 		time.Sleep(300 * time.Millisecond)
-		badNode.Mine(u.Extend(bad, 1, 7, 0x1d00ffff)[len(bad):], true)
+		badNode.MineWhenReady(u.Extend(bad, 1, 7, 0x1d00ffff)[len(bad):], true, 5*time.Second)
 	}
 	deadline := time.Now().Add(wait)
 	if p.Engine == "legacy" && !p.BadFirst && !long {
@@ -269,9 +269,11 @@ func runC07Once(p *C07Plan, long bool) (*stats.Case, error) {
 		ext := u.Extend(target, 1, 0, 0x1d00ffff)
 		for i := 0; i < p.Honest; i++ {
 			if p.BadFirst && p.Engine == "legacy" {
-				nodes[i].Mine(ext, true) // the honest nodes learn the whole chain now and announce it
+				nodes[i].MineWhenReady(ext, true, 5*time.Second) // the honest nodes learn the whole chain now and announce it
+			} else if p.Engine == "exp" && i > 0 {
+				nodes[i].Mine(ext[len(target):], false) // the experimental engine talks to node 0 only
 			} else {
-				nodes[i].Mine(ext[len(target):], true)
+				nodes[i].MineWhenReady(ext[len(target):], true, 5*time.Second)
 			}
 		}
 		target = ext
